@@ -245,7 +245,7 @@ theorem flatMap_flatten_render (gs : List (List CTok)) :
 theorem loop_cmd_aux (ts : List (Aff3 α)) (adj : UInt8) (start : Bool) (v : Char) (n : Nat)
     (hv : verbArgCount v = some n) (hn : n ≠ 0) (g : List CTok) (gs : List (List CTok))
     (hall : ∀ g' ∈ g :: gs, g'.length = n ∧ ∀ t ∈ g', TokOK t) (x : Char) (X : List Char)
-    (hch : ChainTo (g :: gs).flatten x) (hx : isSep x = false)
+    (hch : ChainTo (g :: gs).flatten x) (_hx : isSep x = false)
     (first : List (Call α))
     (hfirst : emitVerb (if start then '@' else v) adj
       (normalizeArgs (g.map fun t => t.tok.value) n (if start then '@' else v) ts) = .ok first)
